@@ -140,6 +140,50 @@ fn dot(a: &[f64], b: &[f64]) -> f64 {
 }
 
 
+/// cones of a sub-family: `kinds` lists the admissible picks (see `family_cones`), the first
+/// cone is of the class-defining kind `kinds[0]`
+fn class_cones(rng: &mut Rng, budget: usize, kinds: &[usize]) -> Vec<SupportedConeT<f64>> {
+    let mut v = vec![];
+    let mut m = 0;
+    let mut tries = 0;
+    while m < budget && tries < 100 {
+        tries += 1;
+        let left = budget - m;
+        let pick = if v.is_empty() { kinds[0] } else { *rng.choose(kinds) };
+        let c = match pick {
+            0 => NonnegativeConeT(1 + rng.below(left.min(6))),
+            1 => ZeroConeT(1),
+            2 => SecondOrderConeT(2 + rng.below(left.min(6).max(2) - 1)),
+            3 => ExponentialConeT(),
+            4 => PowerConeT(*rng.choose(&[0.5, 0.3, 0.75, 0.1])),
+            5 => {
+                let k = 2 + rng.below(2);
+                let mut al: Vec<f64> = (0..k).map(|_| rng.uniform(0.2, 1.0)).collect();
+                let t: f64 = al.iter().sum();
+                al.iter_mut().for_each(|x| *x = (*x / t * 64.0).round() / 64.0);
+                let rest: f64 = al[1..].iter().sum();
+                al[0] = 1.0 - rest;
+                GenPowerConeT(al, 1 + rng.below(3))
+            }
+            _ => PSDTriangleConeT(2 + rng.below(3)),
+        };
+        if cone_dim(&c) <= left || v.is_empty() {
+            m += cone_dim(&c);
+            v.push(c);
+        }
+    }
+    v
+}
+/// the cone classes with their own decision rule: (name, admissible picks)
+const CLASSES: &[(&str, &[usize])] = &[
+    ("sym", &[2, 0, 2, 1]),
+    ("exp", &[3, 3, 0, 3]),
+    ("pow", &[4, 4, 0, 4]),
+    ("exppow", &[3, 4, 0, 3, 4]),
+    ("genpow", &[5, 0, 5]),
+    ("psd", &[6, 0, 6]),
+];
+
 fn family_cones(rng: &mut Rng, budget: usize) -> Vec<SupportedConeT<f64>> {
     // a random mixture filling (at most) `budget` rows
     let mut v = vec![];
@@ -188,14 +232,17 @@ fn family_cones(rng: &mut Rng, budget: usize) -> Vec<SupportedConeT<f64>> {
 
 /// member of family G: planted strictly feasible primal and dual points
 pub fn gen_g(seed: u64, size: usize) -> Prob {
-    gen_g_ext(seed, size, CONIC_LP_NMAX)
+    gen_g_ext(seed, size, CONIC_LP_NMAX, None)
 }
-fn gen_g_ext(seed: u64, size: usize, conic_lp_nmax: usize) -> Prob {
+fn gen_g_ext(seed: u64, size: usize, conic_lp_nmax: usize, class: Option<&[usize]>) -> Prob {
     let mut rng = Rng::new(seed ^ 0xC06_0000);
     let rng = &mut rng;
     let n = 1 + rng.below(size.max(1));
     let budget = 1 + rng.below(size.max(1));
-    let mut cones = family_cones(rng, budget);
+    let mut cones = match class {
+        Some(k) => class_cones(rng, budget, k),
+        None => family_cones(rng, budget),
+    };
     // at most (n-1)/2 equality rows (independent, see below)
     let mut nz = 0;
     cones.retain(|c| {
@@ -424,7 +471,18 @@ fn run_g(r: &Req) -> String {
 fn run_gx(r: &Req) -> String {
     // extended family (measured and reported only): conic programmes with a linear objective
     // at every size
-    let pr = gen_g_ext(r.u("seed") as u64, r.u("size"), usize::MAX);
+    let pr = gen_g_ext(r.u("seed") as u64, r.u("size"), usize::MAX, None);
+    let mut s = build(&pr);
+    s.solve();
+    format!(
+        "status={:?} iters={} n={} m={} quad={} cones={}",
+        s.solution.status, s.solution.iterations, pr.n, pr.b.len(),
+        pr.P.iter().any(|r| r.iter().any(|x| *x != 0.0)) as u8, cone_tags(&pr)
+    )
+}
+fn run_gc(r: &Req) -> String {
+    let kinds = CLASSES.iter().find(|c| c.0 == r.str("class")).expect("class").1;
+    let pr = gen_g_ext(r.u("seed") as u64, r.u("size"), CONIC_LP_NMAX, Some(kinds));
     let mut s = build(&pr);
     s.solve();
     format!(
@@ -460,6 +518,39 @@ fn oracle_g(_r: &Req, out: &str) -> Result<(), String> {
     }
     if o.u("iters") as u32 > ENVELOPE {
         return Err(format!("instance of family G needs {} iterations (envelope {})", o.u("iters"), ENVELOPE));
+    }
+    Ok(())
+}
+
+/// per-class decision rule, measured on the unchanged tree (seeds 1..5, 4000 instances per
+/// class and seed) and fixed with head-room: (class, p95 envelope, mean envelope, failure rate
+/// of the null hypothesis)
+const CLASS_RULE: &[(&str, u32, f64, f64)] = &[
+    // measured: mean 7.02..7.06, p95 11, <= 2/4000 not Solved
+    ("sym", 14, 8.1, 0.005),
+    // measured: mean 9.57..9.68, p95 13..14, 0/4000
+    ("exp", 17, 11.1, 0.005),
+    // measured: mean 10.20..10.22, p95 14, <= 1/4000
+    ("pow", 17, 11.7, 0.005),
+    // measured: mean 9.75..9.81, p95 14, <= 1/4000
+    ("exppow", 17, 11.3, 0.005),
+    // measured: mean 12.35..12.53, p95 19, 5..9/4000
+    ("genpow", 23, 14.3, 0.01),
+    // measured: mean 7.75..7.85, p95 12, 0/4000
+    ("psd", 15, 9.0, 0.005),
+];
+const CLASS_SIZE: usize = 20;
+fn oracle_gc(r: &Req, out: &str) -> Result<(), String> {
+    if !replaying() {
+        return Ok(());
+    }
+    let rule = CLASS_RULE.iter().find(|c| c.0 == r.str("class")).ok_or("class")?;
+    let o = Req::parse(&format!("x {}", out)).ok_or("parse")?;
+    if o.str("status") != "Solved" {
+        return Err(format!("instance of sub-family {} ends {}", rule.0, o.str("status")));
+    }
+    if o.u("iters") as u32 > rule.1 {
+        return Err(format!("instance of sub-family {} needs {} iterations (p95 envelope {})", rule.0, o.u("iters"), rule.1));
     }
     Ok(())
 }
@@ -622,6 +713,8 @@ fn own_channels() -> Vec<Channel> {
     vec![
         Channel { name: "g.solve", tol: Tol::Exact, run: run_g, oracle: Some(oracle_g), modelled: false,
             rust_fn: "DefaultSolver::solve on family G (status, iterations)", lean: "(measured; C06 theorems are about the mechanism)" },
+        Channel { name: "gc.solve", tol: Tol::Exact, run: run_gc, oracle: Some(oracle_gc), modelled: false,
+            rust_fn: "DefaultSolver::solve on the per-cone-class sub-families (status, iterations)", lean: "(measured)" },
         Channel { name: "gx.solve", tol: Tol::Exact, run: run_gx, oracle: None, modelled: false,
             rust_fn: "DefaultSolver::solve on the extended family (reported only)", lean: "-" },
         Channel { name: "traj.sigma_mu", tol: Tol::Exact, run: run_traj, oracle: Some(oracle_traj), modelled: true,
@@ -716,6 +809,49 @@ fn generate(s: &mut Session) {
         s.fail("g.solve", line, out.clone(), format!(
             "family G: only {} of {} instances Solved ({:.2} % < 99.5 %); first failing instance ends {}",
             iters.len(), nq, 100.0 * solved / total, out));
+    }
+    // --- per-cone-class sub-families, each with its own rule
+    let nc = s.budget(400, 4000);
+    for &(class, p95_env, mean_env, p0) in CLASS_RULE {
+        let mut its: Vec<u32> = vec![];
+        let mut cbad: Vec<(String, String)> = vec![];
+        let mut cslow: Vec<(u32, String, String)> = vec![];
+        for _ in 0..nc {
+            let size = 2 + s.rng.below(CLASS_SIZE - 1);
+            let seed = (s.rng.next_u64() >> 12) as usize;
+            let line = Line::new("gc.solve").u("seed", seed).u("size", size).s("class", class).done();
+            let out = s.submit(line.clone());
+            match Req::parse(&format!("x {}", out)) {
+                Some(o) if o.has("status") && o.str("status") == "Solved" => {
+                    let it = o.u("iters") as u32;
+                    its.push(it);
+                    cslow.push((it, line, out));
+                }
+                _ => cbad.push((line, out)),
+            }
+        }
+        let mean = its.iter().map(|&x| x as f64).sum::<f64>() / (its.len().max(1) as f64);
+        let mut v = its.clone();
+        let (q50, q95) = (percentile(&mut v, 0.5), percentile(&mut v, 0.95));
+        let allowance = binom_allowance(nc, p0, 1e-4);
+        s.note(format!(
+            "sub-family {}: {} instances, {} not Solved (allowance {}), iterations mean={:.2} (envelope {}) p50={} p95={} (envelope {}) max={}",
+            class, nc, cbad.len(), allowance, mean, mean_env, q50, q95, p95_env, v.last().cloned().unwrap_or(0)));
+        for (l, o) in cbad.iter().take(5) {
+            s.note(format!("not Solved: {} -> {}", l, o));
+        }
+        cslow.sort();
+        if cbad.len() > allowance {
+            let (l, o) = cbad[0].clone();
+            s.fail("gc.solve", l, o.clone(), format!(
+                "sub-family {}: {} of {} instances not Solved (allowance {} for a failure rate <= {}); first: {}",
+                class, cbad.len(), nc, allowance, p0, o));
+        } else if q95 > p95_env || mean > mean_env {
+            let (it, l, o) = cslow.last().cloned().unwrap();
+            s.fail("gc.solve", l, o, format!(
+                "sub-family {}: iteration count mean={:.2} (envelope {}) p95={} (envelope {}); slowest instance needs {} iterations",
+                class, mean, mean_env, q95, p95_env, it));
+        }
     }
     // extended family: conic LPs of every size (reported, no decision)
     let nx = s.budget(300, 3000);
